@@ -297,7 +297,7 @@ class Intrinsics:
                         for f in eng.fields:
                             if f.endswith('.' + x.target.attr):
                                 note(f, None)
-                    if isinstance(x, ast.Subscript) and isinstance(x.ctx, ast.Store):
+                    if isinstance(x, ast.Subscript) and isinstance(x.ctx, (ast.Store, ast.Del)):
                         b = x.value
                         while isinstance(b, ast.Subscript):
                             b = b.value
@@ -490,6 +490,11 @@ class Intrinsics:
                 # a Python list/set of modelled values as a JSON list: content kept abstract
                 t = fresh('aslist', PyV)
                 return z3.If(PyV.is_PList(t), t, PyV.PList(PyVs.nil))
+            if v.ty.kind == 'opt' and v.ty.args[0].kind in ('str', 'int', 'bool'):
+                # Optional[str|int|bool] as a JSON value: None or the value
+                o = v.ty.sort()
+                inner = self.to_pyv(Sym(o.val(v.t), v.ty.args[0]))
+                return z3.If(o.is_some(v.t), inner, PyV.PNone)
             raise Unsupported('to_pyv of %r' % v.ty)
         if isinstance(v, (ListV, TupleV)):
             l = PyVs.nil
